@@ -50,6 +50,8 @@ def gen_cases(tier, seed):
     for cyc_ in (False, True):
         for cons in (hub_c, hub_c[:7]):
             cases.append({"covlen": None, "lengths": [], "spec": gen.spec(hub_n, hub_e), "cyc": cyc_, "node": False, "ignore": [], "starts": [], "ends": [], "cons": cons, "cov": 1.0})
+    # a long simple path (more nodes than Python's default recursion limit): one walk covers it
+    cases.append({"kind": "longpath", "n": 1100})
     n = 500 if tier == "quick" else 5000
     for i in range(n):
         rng = gen.rng_for("C09", seed, i)
@@ -155,7 +157,8 @@ def run_width(case):
                     M.safe_call(obj.get_width); obs["c09.convention_free_queries"] += 1
                 elif inter == "empty-list-between":
                     M.safe_call(obj.get_width, edges_to_ignore=[]); obs["c09.convention_free_queries"] += 1
-                g = M.safe_call(obj.get_width, edges_to_ignore=list(obj.source_sink_edges) + list(ign))
+                rep = list(ign)[:1] if (len(E) + size) % 3 == 0 else []          # an ignored edge may be listed more than once
+                g = M.safe_call(obj.get_width, edges_to_ignore=list(obj.source_sink_edges) + list(ign) + rep)
                 obs["c09.width_compared"] += 1
                 if g[0] != "ok":
                     viol.append({"sig": f"C09/get_width{name}/raises/{g[1]}/ignore", "msg": f"{g[2]}; edges {E} ignore {ign}"})
@@ -171,7 +174,25 @@ def run_width(case):
             "sample": {"kind": "width", "edges": E, "ignore_subsets_up_to": case["maxsub"]}}
 
 
+def run_longpath(case):
+    import networkx as nx
+    viol = []; obs = collections.Counter()
+    n = case["n"]; G = nx.DiGraph(); G.add_edges_from((f"v{i}", f"v{i + 1}") for i in range(n - 1))
+    for cls, kw in (("MinPathCoverCycles", {}), ("kPathCoverCycles", {"k": 1}), ("MinPathCover", {})):
+        r = M.safe_call(getattr(fp, cls), G, solver_options={"threads": 1, "time_limit": 60}, **kw)
+        out = ("ctor-" + r[1],) if r[0] != "ok" else None
+        if out is None:
+            s_ = M.safe_call(r[1].solve)
+            out = ("solve-" + s_[1],) if s_[0] != "ok" else (("solved", len(models.routes_of(r[1].get_solution()))) if r[1].is_solved() else ("unsolved",))
+        obs["c09.long_path_models"] += 1
+        if out != ("solved", 1):
+            viol.append({"sig": f"C09/{cls}/long-path/{out[0]}", "msg": f"simple path on {n} nodes (one walk covers it): {out}"})
+    return {"viol": viol, "obs": dict(obs), "nontrivial": True, "keys": ["longpath"], "sample": {"long_path_nodes": n}}
+
+
 def run_case(case):
+    if case.get("kind") == "longpath":
+        return run_longpath(case)
     if case.get("kind") == "width":
         return run_width(case)
     viol = []; obs = collections.Counter()
